@@ -325,4 +325,21 @@ theorem run_inv (cfg : Cfg) (hc1 : cfg.finishOnRotate = true) (hc2 : cfg.finishC
   | nil => exact hi
   | cons op rest ih => exact ih _ _ (step_inv cfg hc1 hc2 s sp hi op)
 
+
+/-- stopping in a state the invariant describes delivers exactly the pending fragment -/
+theorem stop_inv (s : St) (sp : Spec) (hi : Inv s sp) : (stop s).delivered = (Spec.stop sp).out := by
+  obtain ⟨hout, htail, _, hgone, hthere⟩ := hi
+  cases hp : s.path with
+  | none =>
+    obtain ⟨hs, hex, _⟩ := hgone hp
+    have ht : sp.tailing = false := by rw [htail, hex]
+    simp [stop, hs, Spec.stop, ht, hout]
+  | some f =>
+    obtain ⟨hex, rem, hs, hpart, hn, _⟩ := hthere f hp
+    have ht : sp.tailing = true := by rw [htail, hex]
+    unfold stop
+    simp only [hs, fileOf_path s f hp, readAvail_spec f.inode f.data.length rem f hn (Nat.le_refl _)]
+    simp only [List.drop_length, spec_nil, List.append_nil, finish_rem]
+    simp only [Spec.stop, ht, if_true, flush_out, hpart, hout]
+
 end MtailVerif.FileStream
